@@ -337,7 +337,16 @@ def record_table_of(fn, expr, w, handles, depth=0, env=None, own_table=None):
   if isinstance(expr, ast.Name):
     if expr.id in env:
       return env[expr.id]
-    ds = E.local_defs(fn.node, expr.id)
+    ds = [d for d in E.local_defs(fn.node, expr.id) if not _empty_container(d)]
+    # elements added in place (x.append(r) / x.add(r) / x.extend(rs)) and loop variables
+    for x in walk_no_nested(fn.node):
+      if isinstance(x, ast.Call) and isinstance(x.func, ast.Attribute) and \
+          isinstance(x.func.value, ast.Name) and x.func.value.id == expr.id and \
+          x.func.attr in ("append", "add", "extend") and len(x.args) == 1:
+        ds.append(x.args[0])
+      elif isinstance(x, (ast.For, ast.AsyncFor)) and isinstance(x.target, ast.Name) and \
+          x.target.id == expr.id:
+        ds.append(x.iter)
     if not ds:
       return None
     ts = {record_table_of(fn, d, w, handles, depth + 1, env, own_table) for d in ds}
